@@ -431,3 +431,44 @@ def run_history(steps, gen_dir, source_specs, rate_sources, n_days, pre_enabled,
                     "seed_file": seed_file, "trace": trace, "saved_before": before_saved,
                     "saved_after": after_saved, "fps_before": before_fps, "fps_after": after_fps})
     return out
+
+
+# ------------------------------------------------------------------------------------------------
+# production rates outside [0, 1]; whole-run generator folders
+# ------------------------------------------------------------------------------------------------
+def run_generate_outcome(dur, multi, pre_enabled, n_days, prod_rate, np_seed, rate_sources, rate_key="r"):
+    """('raised', exception class name) or ('returned', number of emissions)"""
+    src = make_source(dur, multi, prod_rate, rate_source=rate_key)
+    np.random.seed(np_seed)
+    try:
+        ret = src.generate_emissions(SIM_START, SIM_START + timedelta(days=n_days - 1), 0, rate_sources,
+                                     pd.DataFrame(), pre_enabled)
+    except Exception as e:      # noqa: BLE001 - the class is the observation
+        return ("raised", type(e).__name__)
+    return ("returned", len(ret[src.get_id()]))
+
+
+def read_generator_folder(gen_dir, start):
+    """whole-run generator folder -> (seed list, n_sim_saved, {sim: [(path tuple, repairable, duration,
+    [(start offset, id int, id str, rate)])]}) read from the pickles the real simulator wrote"""
+    gen_dir = pathlib.Path(gen_dir)
+    seeds = [int(v) for v in _read_pickle(gen_dir / Generator_Files.EMISSION_PRESEED_FILE)]
+    n_saved = int(_read_pickle(gen_dir / Generator_Files.N_SIM_SAVE_FILE))
+    out = {}
+    for i in range(n_saved):
+        d = _read_pickle(gen_dir / Generator_Files.GEN_INFRA_EMISS.format(i=i))[i]
+        rows = []
+
+        def walk(x, path):
+            if isinstance(x, dict):
+                for k, v in x.items():
+                    walk(v, path + (str(k),))
+            else:
+                ems = [((e._start_date - start).days, int(e._emissions_id), e._emissions_id, float(e._rate))
+                       for e in x]
+                durs = {int(getattr(e, "_nrd", getattr(e, "_duration", -1))) for e in x}
+                reps = {bool(e._repairable) for e in x}
+                rows.append((path, reps, durs, ems))
+        walk(d, ())
+        out[i] = rows
+    return seeds, n_saved, out
